@@ -2,17 +2,17 @@
 # confirm_seed.sh <worktree> <A|B|..>   - confirm a seeded change: suite passes with it, demo fails with it, demo passes without it
 # The demo diff must add crates/<crate>/tests/<name>.rs (integration test) - or pass DEMO_CMD="cargo test ..." explicitly.
 WT="$1"; X="$2"; cd "$WT" || exit 2
-OUT="$WT/seed_out/$X.confirm.txt"; : > "$OUT"
+OUT="$WT/${SEED_DIR:-seed_out}/$X.confirm.txt"; : > "$OUT"
 say() { echo "$@" | tee -a "$OUT"; }
-git checkout -- . ; git clean -fdq -e seed_out
-git apply "seed_out/$X.patch.diff" || { say "patch does not apply"; exit 2; }
+git checkout -- . ; git clean -fdq -e seed_out -e seed_out2
+git apply "${SEED_DIR:-seed_out}/$X.patch.diff" || { say "patch does not apply"; exit 2; }
 say "== full suite with change $X"
 cargo nextest run --workspace --no-fail-fast --test-threads 6 --offline --build-jobs 6 > "$OUT.suite.log" 2>&1; s=$?
 grep -E "^\s*Summary|tests run" "$OUT.suite.log" | tail -2 | tee -a "$OUT"
 say "suite_exit=$s"
-git apply "seed_out/$X.demo.diff" || { say "demo does not apply on changed tree"; }
+git apply "${SEED_DIR:-seed_out}/$X.demo.diff" || { say "demo does not apply on changed tree"; }
 if [ -z "$DEMO_CMD" ]; then
-  f=$(grep -E '^\+\+\+ b/crates/[^/]+/tests/[^/]+\.rs' "seed_out/$X.demo.diff" | head -1 | sed 's#^+++ b/##')
+  f=$(grep -E '^\+\+\+ b/crates/[^/]+/tests/[^/]+\.rs' "${SEED_DIR:-seed_out}/$X.demo.diff" | head -1 | sed 's#^+++ b/##')
   crate=$(echo "$f" | cut -d/ -f2); t=$(basename "$f" .rs)
   pkg=$(grep -m1 '^name' crates/$crate/Cargo.toml | sed 's/.*"\(.*\)".*/\1/')
   DEMO_CMD="cargo nextest run -p $pkg --test $t --offline --build-jobs 6 --no-fail-fast"
@@ -21,10 +21,10 @@ say "== demo with change: $DEMO_CMD"
 sh -c "$DEMO_CMD" > "$OUT.demo_with.log" 2>&1; d1=$?
 grep -E "Summary|tests run|test result|FAIL|panicked" "$OUT.demo_with.log" | head -6 | tee -a "$OUT"
 say "demo_with_exit=$d1"
-git apply -R "seed_out/$X.patch.diff" || { say "cannot revert patch"; exit 2; }
+git apply -R "${SEED_DIR:-seed_out}/$X.patch.diff" || { say "cannot revert patch"; exit 2; }
 say "== demo without change"
 sh -c "$DEMO_CMD" > "$OUT.demo_without.log" 2>&1; d2=$?
 grep -E "Summary|tests run|test result" "$OUT.demo_without.log" | head -3 | tee -a "$OUT"
 say "demo_without_exit=$d2"
-git checkout -- . ; git clean -fdq -e seed_out
+git checkout -- . ; git clean -fdq -e seed_out -e seed_out2
 if [ $s -eq 0 ] && [ $d1 -ne 0 ] && [ $d2 -eq 0 ]; then say "CONFIRMED $X"; exit 0; else say "NOT-CONFIRMED $X"; exit 1; fi
